@@ -92,10 +92,12 @@ def run_shard(desc) -> Acc:
             return None
 
         n = desc["n"]
+        n_in = 0
         for i in range(n):
             acc.case()
             if i % 4 != 3:
-                mt = i % 256 if i < 256 * 2 else rnd.choice([0, 0, 2, 2, 4, 4, 1, 3, 5, 6, rnd.randrange(256)])
+                mt = n_in % 256 if n_in < 256 * 2 else rnd.choice([0, 0, 2, 2, 4, 4, 1, 3, 5, 6, rnd.randrange(256)])
+                n_in += 1
                 plen = rnd.choice([0, 0, 1, 2, 5, 20, 80, 127, 200, 254])
                 f = dict(type=mt, profile=rnd.randrange(65536), cluster=rnd.randrange(65536), src_ep=rnd.randrange(256),
                          dst_ep=rnd.randrange(256), options=rnd.randrange(65536), group=rnd.randrange(65536),
